@@ -381,7 +381,8 @@ Proof.
   intros Hmm H. unfold render_path in H.
   destruct (nth_error S (fst p)) as [n|] eqn:En; [|discriminate].
   destruct (abs_steps mm n (snd p)) as [[ps c]|] eqn:Ea; [|discriminate].
-  injection H as Hs. subst s. destruct (nav_abs mm Hmm _ _ _ _ Ea) as [Hn Hp].
+  assert (Hs : s = root_text (length S) (fst p) ++ psteps_text ps) by congruence. subst s. clear H.
+  destruct (nav_abs mm Hmm _ _ _ _ Ea) as [Hn Hp].
   pose proof (frag_text_local (length S) (fst p) ps Hp) as Hl. unfold frag_text in Hl.
   split; [exact Hl|]. split; [exact (proj2 Hl)|].
   exists n, ps, c. split; [reflexivity|]. split; [exact Ea|].
@@ -390,3 +391,153 @@ Proof.
   pose proof (parse_frag_text (length S) (fst p) ps Hp H1) as Hpf. unfold frag_text in Hpf.
   unfold resolve_frag. rewrite Hpf, En, Hn. destruct p; reflexivity.
 Qed.
+
+(* ================================================================ induction on trees *)
+Section TreeInd.
+  Variable R : Type.
+  Variable P : tree R -> Prop.
+  Hypothesis HN : forall c iss a r ks, Forall (fun p => P (snd p)) ks -> P (Node c iss a r ks).
+  Fixpoint tree_ind' (t : tree R) : P t :=
+    match t with
+    | Node c iss a r ks =>
+      HN c iss a r ks
+         ((fix go (l : list (Z * tree R)) : Forall (fun p => P (snd p)) l :=
+             match l with
+             | [] => Forall_nil _
+             | p :: l' => Forall_cons p (tree_ind' (snd p)) (go l')
+             end) ks)
+    end.
+End TreeInd.
+
+(* ================================================================ what one feature adds to an element, read back *)
+Lemma attrs_named_xattrs f p : attrs_named f (enc_xattrs p) = if fst p =? f then enc_xattrs p else [].
+Proof.
+  destruct p as [g e]. unfold enc_xattrs, attrs_named. cbn [fst snd].
+  destruct e; cbn [filter fst]; destruct (g =? f); reflexivity.
+Qed.
+
+Lemma has_tag_value_elem f g o : has_tag f (value_elem g o) = (g =? f).
+Proof. destruct o; reflexivity. Qed.
+
+Lemma elems_tagged_xelems f p : elems_tagged f (enc_xelems p) = if fst p =? f then enc_xelems p else [].
+Proof.
+  destruct p as [g e]. unfold enc_xelems, elems_tagged. cbn [fst snd].
+  destruct e as [|t|l]; try (destruct (g =? f); reflexivity).
+  destruct (g =? f) eqn:E.
+  - apply filter_all_true. apply Forall_forall. intros x Hx. apply in_map_iff in Hx.
+    destruct Hx as (o & <- & _). rewrite has_tag_value_elem. exact E.
+  - apply filter_all_false. apply Forall_forall. intros x Hx. apply in_map_iff in Hx.
+    destruct Hx as (o & <- & _). rewrite has_tag_value_elem. exact E.
+Qed.
+
+Lemma filter_flat_map {A B} (p : B -> bool) (g : A -> list B) (l : list A) :
+  filter p (flat_map g l) = flat_map (fun x => filter p (g x)) l.
+Proof. induction l as [|x r IH]; simpl; [reflexivity|]. rewrite filter_app, IH. reflexivity. Qed.
+
+Lemma flat_map_ext' {A B} (g h : A -> list B) (l : list A) :
+  (forall x, g x = h x) -> flat_map g l = flat_map h l.
+Proof. intros H. induction l as [|x r IH]; simpl; [reflexivity|]. rewrite H, IH. reflexivity. Qed.
+
+(* exactly one entry of an association list with distinct keys contributes *)
+Lemma select_unique {V B} (g : Z * V -> list B) (es : list (Z * V)) f e :
+  NoDup (map fst es) -> In (f, e) es ->
+  flat_map (fun p => if fst p =? f then g p else []) es = g (f, e).
+Proof.
+  induction es as [|[h v] r IH]; intros Hn Hin; [contradiction|].
+  simpl in Hn. inversion Hn as [|a b Hx Hr]; subst. cbn [flat_map fst].
+  destruct Hin as [E|Hin].
+  - inversion E; subst. rewrite Z.eqb_refl.
+    assert (Hrest : flat_map (fun p : Z * V => if fst p =? f then g p else []) r = []).
+    { clear IH Hn Hr. induction r as [|[h' v'] r' IH']; [reflexivity|]. cbn [flat_map fst].
+      destruct (Z.eqb_spec h' f) as [->|_]; [exfalso; apply Hx; left; reflexivity|].
+      apply IH'. intros H. apply Hx. right. exact H. }
+    rewrite Hrest, app_nil_r. reflexivity.
+  - destruct (Z.eqb_spec h f) as [->|_].
+    + exfalso. apply Hx. change f with (fst (f, e)). apply in_map. exact Hin.
+    + exact (IH Hr Hin).
+Qed.
+
+Lemma select_none {V B} (g : Z * V -> list B) (es : list (Z * V)) f :
+  ~ In f (map fst es) -> flat_map (fun p => if fst p =? f then g p else []) es = [].
+Proof.
+  induction es as [|[h v] r IH]; intros Hn; [reflexivity|]. cbn [flat_map fst].
+  destruct (Z.eqb_spec h f) as [->|_]; [exfalso; apply Hn; left; reflexivity|].
+  apply IH. intros H. apply Hn. right. exact H.
+Qed.
+
+Lemma named_in (es : list (Z * enc)) f e : NoDup (map fst es) -> In (f, e) es ->
+  attrs_named f (flat_map enc_xattrs es) = enc_xattrs (f, e)
+  /\ elems_tagged f (flat_map enc_xelems es) = enc_xelems (f, e).
+Proof.
+  intros Hn Hin. unfold attrs_named, elems_tagged. rewrite !filter_flat_map. split.
+  - rewrite (flat_map_ext' _ _ es (attrs_named_xattrs f)). exact (select_unique enc_xattrs es f e Hn Hin).
+  - rewrite (flat_map_ext' _ _ es (elems_tagged_xelems f)). exact (select_unique enc_xelems es f e Hn Hin).
+Qed.
+
+Lemma named_notin (es : list (Z * enc)) f : ~ In f (map fst es) ->
+  attrs_named f (flat_map enc_xattrs es) = [] /\ elems_tagged f (flat_map enc_xelems es) = [].
+Proof.
+  intros Hn. unfold attrs_named, elems_tagged. rewrite !filter_flat_map. split.
+  - rewrite (flat_map_ext' _ _ es (attrs_named_xattrs f)). exact (select_none enc_xattrs es f Hn).
+  - rewrite (flat_map_ext' _ _ es (elems_tagged_xelems f)). exact (select_none enc_xelems es f Hn).
+Qed.
+
+Lemma elem_value_value_elem f o : elem_value (value_elem f o) = o.
+Proof. destruct o as [t|]; [|reflexivity]. unfold value_elem, elem_value. cbn. rewrite text_roundtrip. reflexivity. Qed.
+
+Lemma map_elem_value f l : map elem_value (map (value_elem f) l) = l.
+Proof. induction l as [|o r IH]; simpl; [reflexivity|]. rewrite elem_value_value_elem, IH. reflexivity. Qed.
+
+(* EElems [] adds nothing: it reads back as EAbsent *)
+Definition norm_enc (e : enc) : enc := match e with EElems [] => EAbsent | _ => e end.
+
+Section ReadBack.
+  Variables (f : Z) (e : enc) (xa : list (Z * str)) (xk : list xml).
+  Hypothesis Ha : attrs_named f xa = enc_xattrs (f, e).
+  Hypothesis Hk : elems_tagged f xk = enc_xelems (f, e).
+
+  Lemma read_enc_back : read_enc f xa xk = norm_enc e.
+  Proof.
+    unfold read_enc, lookup_attr. rewrite Ha, Hk. unfold enc_xattrs, enc_xelems. cbn [fst snd].
+    destruct e as [|t|l]; try reflexivity.
+    destruct l as [|o l']; [reflexivity|]. cbn [map]. rewrite elem_value_value_elem, map_elem_value. reflexivity.
+  Qed.
+
+  Lemma lookup_back : lookup_attr f xa = match e with EAttr t => Some t | _ => None end.
+  Proof. unfold lookup_attr. rewrite Ha. destruct e; reflexivity. Qed.
+
+  Lemma read_many_back d : f_id d = f -> f_many d = true -> read_attr d xa xk = decode_many e.
+  Proof.
+    intros Hid Hm. unfold read_attr. rewrite Hm, Hid, lookup_back, Hk. unfold enc_xelems. cbn [fst snd].
+    destruct e as [|t|l].
+    - reflexivity.
+    - cbn [map]. change (decode_many (EElems [])) with (@nil ostr). rewrite app_nil_r. reflexivity.
+    - rewrite map_elem_value. reflexivity.
+  Qed.
+
+  Lemma read_single_back d : f_id d = f -> f_many d = false ->
+    read_attr d xa xk = [decode_single (f_dflt d) e].
+  Proof.
+    intros Hid Hm. unfold read_attr. rewrite Hm, Hid, read_enc_back.
+    destruct e as [|t|[|o l]]; reflexivity.
+  Qed.
+
+  Lemma occurrences_back : occurrences f xa xk = (length (enc_xattrs (f, e)) + length (enc_xelems (f, e)))%nat.
+  Proof. unfold occurrences. rewrite Ha, Hk. reflexivity. Qed.
+End ReadBack.
+
+(* two lists with the same keys, the values agreeing key by key *)
+Lemma zip_map {V} (G : feat -> V) (sl : list (Z * V)) (L : list feat) :
+  map fst sl = map f_id L ->
+  (forall a d, In a sl -> In d L -> fst a = f_id d -> G d = snd a) ->
+  map (fun d => (f_id d, G d)) L = sl.
+Proof.
+  revert L. induction sl as [|a r IH]; intros [|d L'] Hk HG; simpl in Hk; try discriminate; [reflexivity|].
+  inversion Hk as [[H1 H2]]. cbn [map].
+  rewrite (HG a d (or_introl eq_refl) (or_introl eq_refl) H1), <- H1.
+  rewrite (IH L' H2); [destruct a; reflexivity|].
+  intros a' d' Ha Hd. apply HG; right; assumption.
+Qed.
+
+Lemma str_eqb_true a b : str_eqb a b = true -> a = b.
+Proof. exact (str_eqb_eq a b). Qed.
